@@ -38,7 +38,8 @@ structure Hdr where
 
 def hdr (a : Array String) : Hdr :=
   let N := tokNat a 3
-  ⟨tokNat a 1, tokNat a 2, N, tokNat a 4, if tokNat a 5 == 0 then .mean else .unitNorm, tokNat a 6 == 1,
+  ⟨tokNat a 1, tokNat a 2, N, tokNat a 4,
+   (match tokNat a 5 with | 0 => .mean | 1 => .unitNorm | _ => .tinyFloor), tokNat a 6 == 1,
    tokNat a 7, 8 + 3 * N⟩
 
 /-- everything an op prints that does not depend on the family's parameter type -/
@@ -48,7 +49,9 @@ def stepCommon {Θ Y : Type} {K N : Nat} (fam : Family Θ Y Float) (h : Hdr) (ti
   let L := logLik fam s θ y
   let Lm := logLikMethod fam θ y
   let γ := tab2 (eStep tinyE fam θ y)
-  let θ' := emStep tinyE fam h.rule tie epsE s y θ
+  -- the floor of the weight update: 1e-10 (`estimate_mixture_weight`) resp. `tiny` (inline update of the integration models)
+  let eps := match h.rule with | .tinyFloor => tinyE | _ => epsE
+  let θ' := emStep tinyE fam h.rule tie eps s y θ
   (fmtFloats [L, Lm] ++ " | " ++ fmtFloats (fin2 (rd2 γ)) ++ " | " ++ fmtFloats (fin2 θ'.w), θ')
 
 def toMat {D : Nat} (m : Tab D (Tab D CF)) : Num.Mat :=
@@ -195,6 +198,73 @@ def opsEm (a : Array String) : Option String :=
             cxs (vsum fun e => rd2 c.vecs d e * (⟨rd c.vals e, 0⟩ : CF)
                   * (⟨(rd2 c.vecs g e).re, -(rd2 c.vecs g e).im⟩ : CF))
         some (out ++ " | " ++ fmtFloats q ++ " | " ++ fmtFloats vals ++ " | " ++ fmtFloats cov)
+    | "gcacgmm-sph" | "gcacgmm-diag" | "gcacgmm-full" =>
+      match D with
+      | 0 => none
+      | D' + 1 =>
+        -- tokens after the header:  E nrm floor  z[N*D cx]  e[N*E]  weight[K*N]  vecs[F*K*D*D cx]  vals[F*K*D]  mean[K*E]  cov
+        let E := tokNat a o
+        let nrm : CovNorm := match tokNat a (o + 1) with | 0 => .eigenvalue | 1 => .trace | _ => .none
+        let floor := tokFloat a (o + 2)
+        let oz := o + 3
+        let zT : Tab N (Tab (D' + 1) CF) := tab2 fun n d => cx a oz (n.val * (D' + 1) + d.val)
+        let oe := oz + 2 * N * (D' + 1)
+        let eT : Tab N (Tab E Float) := tab2 fun n d => fl a oe (n.val * E + d.val)
+        let yT : Tab N ((Fin (F' + 1) × (Fin (D' + 1) → CF)) × (Fin E → Float)) :=
+          tab fun n => ((rd sl n, rd (rd zT n)), rd (rd eT n))
+        let ow := oe + N * E
+        let ou := ow + (K' + 1) * N
+        let ol := ou + 2 * (F' + 1) * (K' + 1) * (D' + 1) * (D' + 1)
+        let om := ol + (F' + 1) * (K' + 1) * (D' + 1)
+        let ov := om + (K' + 1) * E
+        let cfam := sliced (F := F' + 1) (cacgFamily D' (eighJacobi (D := D' + 1)) nrm floor tinyE)
+        let cacgOf : Fin (K' + 1) → Tab (F' + 1) (Cacg Float CF (D' + 1)) := fun k => tab fun f =>
+          ⟨tab2 fun d e => cx a ou (((f.val * (K' + 1) + k.val) * (D' + 1) + d.val) * (D' + 1) + e.val),
+           tab fun e => fl a ol ((f.val * (K' + 1) + k.val) * (D' + 1) + e.val)⟩
+        let wT : Tab (K' + 1) (Tab N Float) := tab2 fun k n => fl a ow (k.val * N + n.val)
+        let cacgOut := fun (c : Fin (K' + 1) → Tab (F' + 1) (Cacg Float CF (D' + 1))) =>
+          let vals := (List.finRange (F' + 1)).flatMap fun f => (List.finRange (K' + 1)).flatMap fun k =>
+            (List.finRange (D' + 1)).map fun e => rd (rd (c k) f).vals e
+          let cov := (List.finRange (F' + 1)).flatMap fun f => (List.finRange (K' + 1)).flatMap fun k =>
+            let m := rd (c k) f
+            (List.finRange (D' + 1)).flatMap fun d => (List.finRange (D' + 1)).flatMap fun g =>
+              cxs (vsum fun e => rd2 m.vecs d e * (⟨rd m.vals e, 0⟩ : CF)
+                    * (⟨(rd2 m.vecs g e).re, -(rd2 m.vecs g e).im⟩ : CF))
+          fmtFloats vals ++ " | " ++ fmtFloats cov
+        match a[0]! with
+        | "gcacgmm-sph" =>
+          let fam := prodFamily cfam (sphFamily E tinyE log2piE)
+          let θ : Mixture _ Float (K' + 1) N :=
+            ⟨wT, tab fun k => (cacgOf k, ⟨tab fun d => fl a om (k.val * E + d.val), fl a ov k.val⟩)⟩
+          let (out, θ') := stepCommon fam h tie s (rd yT) θ
+          let q := fin2 (eAux fam θ (rd yT))
+          let means := (List.finRange (K' + 1)).flatMap fun k => (List.finRange E).map fun d => rd (θ'.c k).2.mean d
+          let covs := (List.finRange (K' + 1)).map fun k => (θ'.c k).2.var
+          some (out ++ " | " ++ fmtFloats q ++ " | " ++ cacgOut (fun k => (θ'.c k).1) ++ " | " ++ fmtFloats means
+                ++ " | " ++ fmtFloats covs)
+        | "gcacgmm-diag" =>
+          let fam := prodFamily cfam (diagFamily E tinyE log2piE)
+          let θ : Mixture _ Float (K' + 1) N :=
+            ⟨wT, tab fun k => (cacgOf k, ⟨tab fun d => fl a om (k.val * E + d.val),
+                                         tab fun d => fl a ov (k.val * E + d.val)⟩)⟩
+          let (out, θ') := stepCommon fam h tie s (rd yT) θ
+          let q := fin2 (eAux fam θ (rd yT))
+          let means := (List.finRange (K' + 1)).flatMap fun k => (List.finRange E).map fun d => rd (θ'.c k).2.mean d
+          let covs := (List.finRange (K' + 1)).flatMap fun k => (List.finRange E).map fun d => rd (θ'.c k).2.var d
+          some (out ++ " | " ++ fmtFloats q ++ " | " ++ cacgOut (fun k => (θ'.c k).1) ++ " | " ++ fmtFloats means
+                ++ " | " ++ fmtFloats covs)
+        | _ =>
+          let fam := prodFamily cfam (fullFamily E (pcholFloat (D := E)) tinyE log2piE)
+          let θ : Mixture _ Float (K' + 1) N :=
+            ⟨wT, tab fun k => (cacgOf k, ⟨tab fun d => fl a om (k.val * E + d.val),
+                                         tab2 fun d e => fl a ov ((k.val * E + d.val) * E + e.val)⟩)⟩
+          let (out, θ') := stepCommon fam h tie s (rd yT) θ
+          let q := fin2 (eAux fam θ (rd yT))
+          let means := (List.finRange (K' + 1)).flatMap fun k => (List.finRange E).map fun d => rd (θ'.c k).2.mean d
+          let covs := (List.finRange (K' + 1)).flatMap fun k => (List.finRange E).flatMap fun d =>
+            (List.finRange E).map fun e => rd2 (θ'.c k).2.cov d e
+          some (out ++ " | " ++ fmtFloats q ++ " | " ++ cacgOut (fun k => (θ'.c k).1) ++ " | " ++ fmtFloats means
+                ++ " | " ++ fmtFloats covs)
     | _ => none
 
 end Driver
